@@ -57,6 +57,12 @@ type w7Op struct {
 	Chunks int    `json:"chunks,omitempty"`
 	Broken bool   `json:"broken,omitempty"` // edit: what is saved does not parse
 	Ms     int    `json:"ms,omitempty"`
+	// AgainUs: edit: the file is saved a second time this long after the first save (a correction right away): the
+	// second save may land while the reload caused by the first one is under way
+	AgainUs int `json:"again_us,omitempty"`
+	// TruncGapUs: edit: the editor truncates the file and writes its content only this much later: a reload started by
+	// the truncation may read the empty file, the write that follows must lead to another reload
+	TruncGapUs int `json:"trunc_gap_us,omitempty"`
 }
 
 type w7Ops struct {
@@ -109,7 +115,7 @@ func genW7(r *simrt.Rng) *w7Ops {
 	if r.Chance(0.25) {
 		o.SlowOutUs = []int{100, 2000}[r.Intn(2)]
 	}
-	if r.Chance(0.3) {
+	if r.Chance(0.4) {
 		o.DiskUs = []int{200, 1000, 5000}[r.Intn(3)]
 	}
 	if r.Chance(0.3) {
@@ -175,7 +181,20 @@ func genW7(r *simrt.Rng) *w7Ops {
 				held = -1
 			}
 		case 4:
-			o.Ops = append(o.Ops, w7Op{Kind: "edit", File: r.Intn(len(o.Files)), Chunks: r.Range(1, 3), Broken: r.Chance(0.2)})
+			e := w7Op{Kind: "edit", File: r.Intn(len(o.Files)), Chunks: r.Range(1, 3), Broken: r.Chance(0.2)}
+			if r.Chance(0.35) {
+				e.AgainUs = []int{300, 1000, 3000, 10000, 30000, 100000}[r.Intn(6)]
+				if o.DiskUs > 0 {
+					e.AgainUs = o.DiskUs * r.Range(1, 16) // somewhere inside the reload, which takes a dozen slow disk operations
+				}
+			}
+			if r.Chance(0.35) {
+				e.TruncGapUs = []int{300, 3000, 10000, 30000, 100000}[r.Intn(5)]
+				if o.DiskUs > 0 {
+					e.TruncGapUs = o.DiskUs * r.Range(1, 16)
+				}
+			}
+			o.Ops = append(o.Ops, e)
 			held = -1 // a reload ends every device: whatever was held has been released by the clean-up
 		case 5:
 			// a new file appears (created and written in place): the exact user file of a device
@@ -208,6 +227,18 @@ func shrinkW7(raw json.RawMessage) []json.RawMessage {
 		emit(c)
 	}
 	for i, op := range o.Ops {
+		if op.AgainUs > 0 {
+			c := o
+			c.Ops = append([]w7Op(nil), o.Ops...)
+			c.Ops[i].AgainUs = 0
+			emit(c)
+		}
+		if op.TruncGapUs > 0 {
+			c := o
+			c.Ops = append([]w7Op(nil), o.Ops...)
+			c.Ops[i].TruncGapUs = 0
+			emit(c)
+		}
 		if op.Chunks > 1 || op.Broken {
 			c := o
 			c.Ops = append([]w7Op(nil), o.Ops...)
@@ -643,6 +674,7 @@ func runW7(t *testing.T, job *worlds.Job, seed uint64, rp *worlds.Replay) worlds
 				mk([]string{"C01", "C16", "C15"}, "note_left_sounding", fmt.Sprintf("after %s (the stream of the device that held the key has ended) these notes are still sounding at the receiver: %v", what, on))
 			}
 		}
+		truncGap := time.Duration(0)
 		writeFile := func(p string, data []byte, chunks int, create bool) [2]int64 {
 			start := [2]int64{int64(simrt.Steps()), int64(simrt.Now())}
 			flag := os.O_WRONLY | os.O_TRUNC
@@ -656,6 +688,9 @@ func runW7(t *testing.T, job *worlds.Job, seed uint64, rp *worlds.Replay) worlds
 			if chunks < 1 {
 				chunks = 1
 			}
+			if truncGap > 0 {
+				simrt.Sleep(truncGap)
+			}
 			sz := (len(data) + chunks - 1) / chunks
 			for c := 0; c < chunks; c++ {
 				lo, hi := c*sz, (c+1)*sz
@@ -665,6 +700,8 @@ func runW7(t *testing.T, job *worlds.Job, seed uint64, rp *worlds.Replay) worlds
 				if hi > len(data) {
 					hi = len(data)
 				}
+				// every write() is a modification: the last one is what a reload has to follow
+				start = [2]int64{int64(simrt.Steps()), int64(simrt.Now())}
 				f.Write(data[lo:hi])
 				if c+1 < chunks {
 					simrt.Sleep(3 * time.Millisecond)
@@ -752,8 +789,21 @@ func runW7(t *testing.T, job *worlds.Job, seed uint64, rp *worlds.Replay) worlds
 				fi := op.File
 				f := files[fi]
 				data := w7Content(&w7Ops{Files: files}, fi, version[fi]+1, op.Broken)
+				truncGap = time.Duration(op.TruncGapUs) * time.Microsecond
 				ws := writeFile(f.Dir+"/"+f.Name, data, op.Chunks, false)
+				truncGap = 0
+				if op.TruncGapUs > 0 {
+					ro.Faults["write_some_time_after_truncation"]++
+				}
 				version[fi]++
+				if op.AgainUs > 0 {
+					// ... and once more right away, with other content again: that one is what must be in force
+					simrt.Sleep(time.Duration(op.AgainUs) * time.Microsecond)
+					data = w7Content(&w7Ops{Files: files}, fi, version[fi]+1, op.Broken)
+					ws = writeFile(f.Dir+"/"+f.Name, data, 1, false)
+					version[fi]++
+					ro.Faults["config_saved_again_right_away"]++
+				}
 				brokenNow[fi] = op.Broken
 				ro.Faults["config_saved_in_place"]++
 				if op.Broken {
@@ -768,6 +818,12 @@ func runW7(t *testing.T, job *worlds.Job, seed uint64, rp *worlds.Replay) worlds
 						silent("the reload that followed a saved configuration (KEY_A was held)")
 						held = -1
 						ro.Faults["reload_with_key_held"]++
+					}
+					// what was saved last is what every connected device must play with now
+					for i := range plugged {
+						if isPlugged(i) && !failed() && settle("the reload") {
+							checkPress(i, true)
+						}
 					}
 				}
 			case "create":
